@@ -30,9 +30,11 @@ std::vector<uint8_t> random_valid_file(uint64_t seed, bool dialect, bool big, in
     for (int i = 0; i < nv; i++) {
         cdf::Var v; v.name = "v" + std::to_string(i) + (rng.chance(0.15) ? std::string(rng.range(1, 30), 'n') : ""); v.type = f.version == 5 ? (int)rng.range(NC_BYTE, NC_UINT64) : (int)rng.range(NC_BYTE, NC_DOUBLE);
         int r = nd ? (int)rng.range(0, 3) : 0; bool rec = false;
+        if (nd && rng.chance(0.05)) r = (int)rng.range(17, 24);   // more dimensions than any fixed-size scratch array a reader might use
         for (int k = 0; k < r; k++) { int d = (int)rng.below(nd); if (f.dims[d].len == 0) { if (k != 0) { k--; if (rng.chance(0.5)) break; continue; } rec = true; } v.dimids.push_back(d); }
         // the unlimited dimension may only be first
         for (size_t k = 1; k < v.dimids.size(); k++) if (f.dims[(size_t)v.dimids[k]].len == 0) { v.dimids.resize(k); break; }
+        if (v.dimids.size() > 8) { long long n0 = 1; for (size_t k = 0; k < v.dimids.size(); k++) { long long l = f.dims[(size_t)v.dimids[k]].len ? f.dims[(size_t)v.dimids[k]].len : f.numrecs; if (n0 * l > 256 || l == 0) { int one = -1; for (int d = 0; d < nd; d++) if (f.dims[(size_t)d].len == 1) one = d; if (one < 0) { cdf::Dim d1; d1.name = "one"; d1.len = 1; f.dims.push_back(d1); one = nd; nd++; } if (k == 0 && l == 0) continue; v.dimids[k] = one; } else n0 *= l; } }
         int na = (int)rng.range(0, 2); for (int k = 0; k < na; k++) v.atts.push_back(rand_att(rng, f.version, "a" + std::to_string(k), false));
         f.vars.push_back(v);
         long long n = 1; for (auto d : v.dimids) n *= f.dims[(size_t)d].len ? f.dims[(size_t)d].len : f.numrecs;
@@ -45,4 +47,14 @@ std::vector<uint8_t> random_valid_file(uint64_t seed, bool dialect, bool big, in
         for (int i = 0; i < nv + 1; i++) o.gaps.push_back(rng.chance(0.4) ? 4 * rng.range(0, 20) : 0);
     }
     return cdf::encode(f, data, o);
+}
+
+// a small valid file whose only notable feature is a variable of `rank` dimensions (all of length 1 or 2)
+std::vector<uint8_t> highrank_valid_file(int version, int rank) {
+    cdf::File f; f.version = version; cdf::Dim a; a.name = "one"; a.len = 1; cdf::Dim b; b.name = "two"; b.len = 2; cdf::Dim t; t.name = "t"; t.len = 0; f.dims = {t, a, b}; f.numrecs = 1;
+    std::vector<std::vector<uint8_t>> data;
+    { cdf::Var v; v.name = "deep"; v.type = NC_SHORT; for (int k = 0; k < rank; k++) v.dimids.push_back(k == rank - 1 ? 2 : 1); f.vars.push_back(v); std::vector<uint8_t> by; put_val(by, NC_SHORT, 11); put_val(by, NC_SHORT, 12); data.push_back(by); }
+    { cdf::Var v; v.name = "deeprec"; v.type = NC_INT; v.dimids.push_back(0); for (int k = 1; k < rank + 3; k++) v.dimids.push_back(1); f.vars.push_back(v); std::vector<uint8_t> by; put_val(by, NC_INT, 77); data.push_back(by); }
+    { cdf::Var v; v.name = "flat"; v.type = NC_INT; v.dimids = {2}; f.vars.push_back(v); std::vector<uint8_t> by; put_val(by, NC_INT, 5); put_val(by, NC_INT, 6); data.push_back(by); }
+    cdf::EncOpts o; return cdf::encode(f, data, o);
 }
